@@ -1823,3 +1823,16 @@ package engine
 //@   ensures[a-file-that-cannot-be-opened-is-an-error] oerr != nil ==> result == oerr
 //@   ensures[a-load-that-failed-or-was-cancelled-leaves-no-loaded-mark] called(cerr) && cerr != nil ==> result == cerr && !has(vm.loaded, f)
 //@   ensures[a-loaded-file-is-marked] called(cerr) && cerr == nil ==> result == nil
+
+//@ ---------------------------------------------------------------- the lexer's table of one-character tokens (C05)
+
+//@ func (*Lexer).next
+//@   trusted
+//@   ensures result1 == nil ==> 0 <= result0 && result0 <= 1114111
+
+//@ func (*Lexer).token
+//@   property C05
+//@   safety only idx
+//@   checks only idx
+//@   requires l != nil
+//@   trusted-frame
